@@ -299,6 +299,24 @@ func (a *c17Acceptor) sweep() {
 			})
 		}
 	}
+	if rng.Intn(2) == 0 {
+		// one bid matched with two asks: two pending ids carry the same bid
+		// nonce; removing the bid must drop both expectations
+		e := c17Exp{
+			Nonce:   nonces[rng.Intn(len(nonces))],
+			SelfBal: balances[rng.Intn(len(balances))],
+			ChanTyp: chanTypes[rng.Intn(3)],
+			Unann:   rng.Intn(2) == 0,
+			ZC:      rng.Intn(2) == 0,
+		}
+		a.reg(pids[0], e)
+		a.reg(pids[1], e)
+		a.r.Count("acc/multi-pid-bid")
+		if rng.Intn(2) == 0 {
+			a.rm(e.Nonce)
+			a.r.Count("acc/multi-pid-bid-removed")
+		}
+	}
 	cts := []*int{nil}
 	for c := 0; c <= 6; c++ {
 		c := c
